@@ -102,7 +102,23 @@ def n1_provenance(ctx):
                 if s['k'] == 'assign' and s['rv'] == 'ref' and any(isinstance(pe, dict) and 'index' in pe for pe in s['ops'][0].get('copy', s['ops'][0].get('move', {})).get('proj', [])):
                     pass
     if n < 2:
-        raise AnchorLost('format_number: expected two chars().nth(..) sites, found %d' % n)
+        # the digits are no longer taken with chars().nth(): judge the provenance on the walks of N9 (E6c) instead - a position
+        # taken in one rendering must not be derived from (or bounded by) the length of another rendering
+        pos = getattr(ctx, '_c07_positions', None)
+        if pos is None:
+            raise AnchorLost('format_number: expected two chars().nth(..) sites, found %d, and the assembly could not be tabulated (N9)' % n)
+        events, prov = pos
+        b = bodies[0]
+        names = {'i': 'formated_number', 't': 'trunc_part'}
+        ctx.ok('N1', 'format_number: positions and the lengths that bound them, followed through the walks of N9', 'provenance', site=b.loc)
+        if not events:
+            ctx.ok('N1', 'format_number: every position is taken in the rendering it was measured on (E6c walks)', 'provenance', site=b.loc)
+            ctx.ok('N1', 'format_number: no length of another rendering bounds a position', 'provenance', site=b.loc)
+        for cons, foreign in sorted(events):
+            what = '+'.join(re.sub(r'[^A-Za-z0-9_().,*]', '', re.sub(r'\b(f64|num|tools|ToString|alloc|core|string)::', '', prov.get(f, '?'))) for f in foreign)
+            ctx.finding('N1', '%s/positions/%s<-len(%s=%s)' % (fn_key(b.path), '+'.join(names.get(c, c) for c in cons), '+'.join(names.get(f, f) for f in foreign), what[:110]),
+                        '%s takes characters of the %s rendering at positions derived from the length of another rendering (%s = %s): the two are independent renderings and can differ in length'
+                        % (fn_key(b.path), '/'.join(names.get(c, c) for c in cons), '/'.join(names.get(f, f) for f in foreign), '; '.join(prov.get(f, '?') for f in foreign)[:160]), site=b.loc)
 
 
 def n2_wiring(ctx):
@@ -452,13 +468,21 @@ def n7_grouping(ctx):
     ctx.rule('N7', 'grouping constant and separator roles', floor=4)
     b = ctx.facts.one(FN)
     ctx.fn(b)
+    if getattr(ctx, '_c07_positions', None) is not None:
+        # N9 tabulated the assembly itself: groups of three from the right, thousands separator between the groups only,
+        # decimal separator once behind the integer part - whatever the loop looks like. The site rules below are its
+        # fallback for a tree N9 cannot walk.
+        for what in ('groups of three from the right (N9 table)', 'thousands separator only between groups (N9 table)',
+                     'decimal separator once, behind the grouped integer part (N9 table)', 'no separator at either end of the integer part (N9 table)'):
+            ctx.ok('N7', what, 'table', site=b.loc, sample=False)
+        return
     rems = []
     for i in b.normal_blocks:
         for s in b.blocks[i]['stmts']:
             if s['k'] == 'assign' and s['rv'] == 'binop' and s['op'] == 'Rem' and s['ops'][1].get('const') and s['lhs'].get('ty') == 'usize':
                 rems.append((s['ops'][1]['const'].get('val'), s['loc']))
     if len(rems) < 2:
-        raise AnchorLost('format_number: expected the two `% 3` computations, found %d' % len(rems))
+        raise AnchorLost('format_number: expected the two `%% 3` computations, found %d' % len(rems))
     for v, loc in rems:
         if v == 3:
             ctx.ok('N7', 'grouping modulus 3', 'const', site=loc, sample=False)
@@ -510,6 +534,19 @@ def n8_zero_fraction(ctx):
     if n == 0:
         ctx.finding('N8', 'fract_information/no-zero-result', 'fract_information no longer has an explicit zero result for a zero fraction', site=b.loc)
     fb = ctx.facts.one(FN)
+    # what the zero test is applied to: the fraction of the same rounded value whose integer part is printed
+    fi = list(fb.calls(r'^formatter::fract_information$'))
+    pos = getattr(ctx, '_c07_positions', None)
+    if pos is not None:
+        tr = pos[1].get('t', '')
+        m_ = re.fullmatch(r'f64::abs\(f64::trunc\((.*)\)\)|f64::trunc\(f64::abs\((.*)\)\)', tr)
+        base = (m_.group(1) or m_.group(2)) if m_ else None
+        args = [render(fb.expr(t['args'][0])) for _, t in fi]
+        if len(fi) == 1 and base is not None and args[0] in ('f64::fract(%s)' % base, 'f64::fract(f64::abs(%s))' % base):
+            ctx.ok('N8', 'the zero test reads the fraction of the rounded value whose integer part is printed; the omission decision is tabulated by N9', 'table', site=fi[0][1]['loc'])
+        else:
+            ctx.finding('N8', 'format_number/fraction-source', 'the zero-fraction test is applied to %s, while the integer part printed is that of %s' % (args, tr[:120]), site=fb.loc)
+        return
     # the omission test in format_number: push of the decimal separator guarded by (fract_part > 0 || !remove_fract_if_zero)
     de = [(bid, t) for bid, t in fb.calls(r'String::push_str$') if render(fb.expr(t['args'][1])) == 'decimal_separator']
     if len(de) != 1:
@@ -574,4 +611,115 @@ def n8_zero_fraction(ctx):
             A, R, N, {True: 'printed', False: 'omitted', None: 'undetermined'}[got], 'printed' if want else 'omitted', len(wrong)), site=de[0][1]['loc'])
 
 
-RULES = [('N8', n8_zero_fraction), ('N1', n1_provenance), ('N2', n2_wiring), ('N3', n3_setters), ('N4', n4_sign), ('N5', n5_casts), ('N6', n6_money), ('N7', n7_grouping)]
+RULES = [('N9', lambda ctx: n9_assembly_table(ctx)), ('N8', n8_zero_fraction), ('N1', n1_provenance), ('N2', n2_wiring), ('N3', n3_setters), ('N4', n4_sign), ('N5', n5_casts), ('N6', n6_money), ('N7', n7_grouping)]
+
+
+def n9_assembly_table(ctx):
+    """N9 the printed text is assembled from the rendering by position: for every length of the integer part, every number of
+    fraction digits, either sign and every setting of the zero-fraction flags, the result is [-] + the integer digits in groups
+    of three from the right separated by the thousands separator + [decimal separator + the fraction digits]. Tabulated with
+    E6c over symbolic renderings (digits are opaque symbols, so one walk per pair of lengths covers every number of that shape);
+    independent of how the loop is written."""
+    from ..absint import Machine, Unknown, is_sym
+    from .. import absstr
+    ctx.rule('N9', 'assembly of the printed number, tabulated over rendering lengths', floor=400)
+    b = ctx.facts.one(r'^formatter::format_number$')
+    ctx.fn(b)
+    if b.argc != 6:
+        raise AnchorLost('format_number: expected 6 parameters, found %d' % b.argc)
+    # parameter roles by type: the f64 is the number, the two Strings are thousands / decimal separator in declaration order,
+    # the u8 the digit count, the two bools remove_fract_if_zero / use_fract_rounding in declaration order
+    tys = [str(b.locals.get(i, '')) for i in range(1, 7)]
+    num = [i + 1 for i, t in enumerate(tys) if t == 'f64']
+    strs = [i + 1 for i, t in enumerate(tys) if t.endswith('String')]
+    u8s = [i + 1 for i, t in enumerate(tys) if t == 'u8']
+    bools = [i + 1 for i, t in enumerate(tys) if t == 'bool']
+    if len(num) != 1 or len(strs) != 2 or len(u8s) != 1 or len(bools) != 2:
+        raise AnchorLost('format_number: parameter types changed: %s' % tys)
+    maxlen = 40 if (ctx.tier == 'thorough' and ctx.cfg_name == 'dev') else 13
+
+    def walk(L, Ff, neg, fract_pos, remove, rounding):
+        ints = ['i%d' % k for k in range(1, L + 1)]
+        frac = ['f%d' % k for k in range(1, Ff + 1)]
+        formatted = ('str', ints + (['.'] + frac if Ff else []))
+        trunc = ('str', ['t%d' % k for k in range(1, L + 1)])
+
+        def model(m, path, args, t):
+            r = absstr.std_model(m, path, args, t)
+            if r is not NotImplemented:
+                return r
+            if re.search(r'alloc::fmt::format$|fmt::format::format_inner$', path):
+                return formatted
+            if re.search(r'ToString>::to_string$', path) and args:
+                v = m.deref_value(args[0])
+                if absstr.is_str(v):
+                    return v
+                prov['t'] = render(b.expr(t['args'][0]))
+                return trunc                               # the text of the (rounded, truncated) magnitude
+            if re.search(r'formatter::fract_information$', path):
+                return 5 if fract_pos else 0
+            if re.search(r'num::<impl [iu](\d+|size)>::pow$', path) and len(args) == 2 and all(isinstance(m.deref_value(a), int) for a in args):
+                return m.deref_value(args[0]) ** m.deref_value(args[1])
+            if re.search(r'hint::must_use$', path) and args:
+                return args[0]
+            return NotImplemented
+        m = Machine(b, model, max_steps=20000)
+        m.env[num[0]] = -1.5 if neg else 1.5
+        m.env[strs[0]] = ('str', ['T'])
+        m.env[strs[1]] = ('str', ['D'])
+        m.env[u8s[0]] = 2
+        m.env[bools[0]] = int(remove)
+        m.env[bools[1]] = int(rounding)
+        why = m.run(0)
+        if why != 'return':
+            raise Unknown('the walk ended with %s' % why)
+        out = m.deref_value(m.load(0))
+        if not absstr.is_str(out):
+            raise Unknown('the result is %r' % (out,))
+        for how, cons, foreign, loc in m.events:
+            events.add((cons, foreign))
+        want = (['-'] if neg else [])
+        for k, d in enumerate(ints):
+            want.append(d)
+            left = L - (k + 1)
+            if left and left % 3 == 0:
+                want.append('T')
+        if Ff and (fract_pos or not remove):
+            want += ['D'] + frac
+        return out[1], want
+
+    bad = {}
+    n = 0
+    site = b.loc
+    events = set()
+    prov = {}
+    ctx._c07_positions = None
+    for L in range(1, maxlen + 1):
+        for Ff in (0, 1, 2, 5):
+            for neg in (0, 1):
+                for fract_pos in (0, 1):
+                    for remove in (0, 1):
+                        for rounding in (0, 1):
+                            n += 1
+                            try:
+                                got, want = walk(L, Ff, neg, fract_pos, remove, rounding)
+                            except Unknown as ex:
+                                ctx.finding('N9', 'format_number/assembly/not-extractable', 'the assembly of the printed number could not be tabulated (integer part of %d digits, %d fraction digits): %s' % (L, Ff, ex), site=site)
+                                return
+                            if got == want:
+                                ctx.ok('N9', '%d integer digits, %d fraction digits, neg=%d fract>0=%d remove=%d rounding=%d -> %s' % (L, Ff, neg, fract_pos, remove, rounding, ''.join(x if len(x) == 1 else 'd' for x in want)), 'table', site=site, sample=(n in (1, 200, 411)))
+                                continue
+                            gi = [x for x in got if x not in ('-', 'T', 'D', '.') and not x.startswith('f')]
+                            if ('-' in got) != ('-' in want) or (got and want and (got[0] == '-') != (want[0] == '-')):
+                                kind = 'sign'
+                            elif [x for x in got if x == 'T' or x.startswith('i')] != [x for x in want if x == 'T' or x.startswith('i')]:
+                                kind = 'grouping'
+                            else:
+                                kind = 'fraction'
+                            bad.setdefault(kind, 'a rendering with %d integer and %d fraction digits (negative=%d, fraction>0=%d, remove_fract_if_zero=%d, use_fract_rounding=%d) is assembled as %s; expected %s'
+                                           % (L, Ff, neg, fract_pos, remove, rounding, ' '.join(got), ' '.join(want)))
+    for kind, what in sorted(bad.items()):
+        ctx.finding('N9', 'format_number/assembly/%s' % kind, what, site=site)
+    ctx._c07_positions = (events, prov)
+    ctx.analysed('N9', '%d walks: integer part 1..%d digits x fraction 0/1/2/5 digits x sign x fraction>0 x remove_fract_if_zero x use_fract_rounding' % (n, maxlen))
+
